@@ -369,7 +369,19 @@ Config sanitize_config(Config config) {
 }
 
 bool validate_shards(const protocol::Manifest& manifest) {
-    return manifest.threshold > 0 && manifest.shards.size() >= manifest.threshold;
+    if (manifest.threshold == 0 || manifest.shards.size() < manifest.threshold) {
+        return false;
+    }
+    // Key reconstruction needs pairwise distinct, non-zero share indices; a manifest that
+    // violates this can never be used and must not reach Shamir::combine (which throws).
+    std::array<bool, 256> seen{};
+    for (const auto& shard : manifest.shards) {
+        if (shard.index == 0 || seen[shard.index]) {
+            return false;
+        }
+        seen[shard.index] = true;
+    }
+    return true;
 }
 
 std::optional<std::pair<std::string, std::uint16_t>> parse_endpoint(const std::string& address) {
@@ -1637,7 +1649,11 @@ std::optional<ChunkData> Node::receive_chunk(const std::string& manifest_uri, Ch
     }
 
     crypto::Key chunk_key{};
-    chunk_key.bytes = crypto::Shamir::combine(shares, manifest.threshold);
+    try {
+        chunk_key.bytes = crypto::Shamir::combine(shares, manifest.threshold);
+    } catch (const std::exception&) {
+        return std::nullopt;
+    }
 
     const auto plaintext = crypto::CryptoManager::decrypt_with_key(chunk_key,
                                                                   manifest.chunk_id,
@@ -1808,9 +1824,12 @@ std::optional<ChunkData> Node::fetch_chunk(const ChunkId& chunk_id) {
                 shares.push_back(share);
             }
 
-            const auto secret_bytes = crypto::Shamir::combine(shares, shard_threshold);
             crypto::Key chunk_key{};
-            chunk_key.bytes = secret_bytes;
+            try {
+                chunk_key.bytes = crypto::Shamir::combine(shares, shard_threshold);
+            } catch (const std::exception&) {
+                return std::nullopt;
+            }
 
             const crypto::Nonce nonce{record->nonce};
             const std::span<const std::uint8_t> ciphertext{record->data};
